@@ -134,6 +134,10 @@ pub struct Execution {
     pub wall_us: u64,
     pub unix_begin_ns: u64,
     pub unix_end_ns: u64,
+    /// a tracing call was waiting for a lock of the collector while the collector was inside the
+    /// user's `Reporter::report` (so the call is blocked for as long as the reporter takes)
+    #[serde(default)]
+    pub blocked_during_report: bool,
 }
 
 fn quiesce() -> Stats {
@@ -232,6 +236,7 @@ pub fn run_once(program: &Program, prefix: &[u32]) -> Execution {
     let mut running: Option<usize> = None;
     let mut preemptions = 0u32;
     let mut outcome = Outcome::Completed;
+    let mut blocked_during_report = false;
     loop {
         let w = match s.wait_for_control(STEP_TIMEOUT) {
             Ok(w) => w,
@@ -267,6 +272,11 @@ pub fn run_once(program: &Program, prefix: &[u32]) -> Execution {
             break;
         }
         let mut enabled: Vec<usize> = (0..w.actors.len()).filter(|&i| spawned[i] && w.enabled(i)).collect();
+        if w.actors.iter().any(|a| matches!(a.pending, Some(Pending::Report)))
+            && (0..w.actors.len()).any(|i| matches!(w.actors[i].pending, Some(Pending::RegisterReceiver)) && !w.enabled(i))
+        {
+            blocked_during_report = true;
+        }
         if enabled.is_empty() {
             outcome = Outcome::Deadlock;
             break;
@@ -418,6 +428,7 @@ pub fn run_once(program: &Program, prefix: &[u32]) -> Execution {
         wall_us: t_start.elapsed().as_micros() as u64,
         unix_begin_ns,
         unix_end_ns,
+        blocked_during_report,
     }
 }
 
